@@ -25,6 +25,11 @@ BinaryRef(live, bin) == R(bin, live, bin)
 RECURSIVE Walk(_, _, _)
 Walk(items, moves, acc) ==
   IF moves = <<>> THEN acc
+  ELSE IF Head(moves) = "l" THEN Append(acc, IF items = <<>> THEN None ELSE Some(items[Len(items)]))      \* last(): consumes the iterator
+  ELSE IF Head(moves) \in {"n1", "n2"} THEN                                                               \* nth(k)
+       LET k == IF Head(moves) = "n1" THEN 1 ELSE 2 IN
+       IF Len(items) > k THEN Walk(SubSeq(items, k + 2, Len(items)), Tail(moves), Append(acc, Some(items[k + 1])))
+       ELSE Walk(<<>>, Tail(moves), Append(acc, None))
   ELSE IF items = <<>> THEN Walk(items, Tail(moves), Append(acc, None))
   ELSE IF Head(moves) = "f" THEN Walk(Tail(items), Tail(moves), Append(acc, Some(Head(items))))
   ELSE Walk(SubSeq(items, 1, Len(items) - 1), Tail(moves), Append(acc, Some(items[Len(items)])))
@@ -35,6 +40,11 @@ RECURSIVE WalkOwned(_, _, _, _)
 WalkOwned(items, bin, moves, acc) ==
   IF moves = <<>> THEN acc
   ELSE IF Head(moves) = "t" THEN WalkOwned(items, None, Tail(moves), Append(acc, <<"bin", bin>>))
+  ELSE IF Head(moves) = "l" THEN Append(acc, <<"item", IF items = <<>> THEN None ELSE Some(items[Len(items)])>>)
+  ELSE IF Head(moves) \in {"n1", "n2"} THEN
+       LET k == IF Head(moves) = "n1" THEN 1 ELSE 2 IN
+       IF Len(items) > k THEN WalkOwned(SubSeq(items, k + 2, Len(items)), bin, Tail(moves), Append(acc, <<"item", Some(items[k + 1])>>))
+       ELSE WalkOwned(<<>>, bin, Tail(moves), Append(acc, <<"item", None>>))
   ELSE IF items = <<>> THEN WalkOwned(items, bin, Tail(moves), Append(acc, <<"item", None>>))
   ELSE IF Head(moves) = "f" THEN WalkOwned(Tail(items), bin, Tail(moves), Append(acc, <<"item", Some(Head(items))>>))
   ELSE WalkOwned(SubSeq(items, 1, Len(items) - 1), bin, Tail(moves), Append(acc, <<"item", Some(items[Len(items)])>>))
